@@ -31,6 +31,20 @@ func (i *documentIndex) Keys() []string {
 	return keys
 }
 
+// snapshot returns the documents as they are at one moment (the values are never written
+// to once they are in the index, so they are not copied)
+func (i *documentIndex) snapshot() map[string][]byte {
+	i.muIndex.RLock()
+	defer i.muIndex.RUnlock()
+
+	docs := make(map[string][]byte, len(i.index))
+	for key, value := range i.index {
+		docs[key] = value
+	}
+
+	return docs
+}
+
 func (i *documentIndex) Get(key string) interface{} {
 	i.muIndex.RLock()
 	defer i.muIndex.RUnlock()
